@@ -535,14 +535,20 @@ def step2(s2: int, s3: int, op1: int, op2: int) -> bool:
     """
     rel = SHARD["rel"]
     which = SHARD["which"]
-    a, b = pick(s2, 3), pick(s3, 3)
+    if "shape" in SHARD:
+        a, b = SHARD["shape"][0], SHARD["shape"][1]
+    else:
+        a, b = pick(s2, 3), pick(s3, 3)
     if rel == "ir_mod":
         shape = (a, b, SHARD["third"], 0)
     elif rel in ("mod_sec", "mod_sym", "mod_prx"):
         shape = (1, 2, a, b)
     else:
         shape = (2, 3, a, b)
-    o1 = SHARD["op_lo"] + pick(op1, SHARD["nops1"])
+    if "first_ops" in SHARD:
+        o1 = SHARD["first_ops"][pick(op1, len(SHARD["first_ops"]))]
+    else:
+        o1 = SHARD["op_lo"] + pick(op1, SHARD["nops1"])
     o2 = pick(op2, SHARD["nops"])
     with untraced():
         why, names = run_steps(rel, shape, [o1, o2], which)
@@ -844,6 +850,15 @@ def alias(case: int, dflt: int, target: int) -> bool:
 
 def extra_shards(which, tier):
     out = [{"fn": "twin", "consts": {"which": which}, "timeout": 600}]
+    if tier == "quick":
+        # K = 2 on the module list: an operation that (re)inserts or assigns modules, then any operation
+        w = build("ir_mod", (0, 0, 0, 0))
+        names = [n for n, _f, _e in list_ops(w)]
+        ins = [i for i, n in enumerate(names) if n.startswith(("append", "insert", "extend", "+="))]
+        for lo in range(0, len(ins), 6):
+            fo = ins[lo:lo + 6]
+            out.append({"fn": "step2", "consts": {"rel": "ir_mod", "which": which, "third": 0, "shape": [1, 1], "first_ops": fo, "op_lo": 0, "nops1": len(fo), "nops": len(names)},
+                        "timeout": 1200, "twin": False, "cover": False})
     if tier != "quick":
         # K = 2: every ordered pair of operations from the pre-states with both candidate parents attached to different IRs
         for rel in RELS:
